@@ -339,8 +339,8 @@ theorem write_core_sim (hy : hyg sfx ids = true) {sp : Dir D} (hs : Sim H sfx id
 
 theorem write_sim (hy : hyg sfx ids = true) (h : Sim H sfx ids lost s d) {i : Str} (data : D) (hi : i ∈ ids)
     (hw : d.mode = .w → cN sfx i ∉ keys d.completed) :
-    Sim H sfx ids (lostStep sfx d lost (.write i data)) (write H s i data).1 (specStep .directory sfx d (.write i data)) ∧
-    (write H s i data).2 = expectRes sfx d s.ncDir (.write i data) := by
+    Sim H sfx ids (lostStep sfx d lost (.write i data)) (write cfg H s i data).1 (specStep .directory sfx d (.write i data)) ∧
+    (write cfg H s i data).2 = expectRes sfx d s.ncDir (.write i data) := by
   obtain ⟨hs', hf⟩ := sim_populate hy h
   unfold write
   rw [writeCore_root hy h hi data]
@@ -381,7 +381,7 @@ theorem write_sim (hy : hyg sfx ids = true) (h : Sim H sfx ids lost s d) {i : St
 /-! ### `write_not_completed` -/
 
 theorem writeCore_ro {sub : Sub} {uid suffix : Str} {data : D} (hr : s.mode = .r) :
-    writeCore H s sub uid suffix data = (s, .err .ioError) := by
+    writeCore cfg H s sub uid suffix data = (s, .err .ioError) := by
   unfold writeCore; rw [if_pos hr]
 
 @[simp] theorem populateC_nc (s : Dir D) : (populateC s).nc = s.nc := by unfold populateC; split <;> rfl
@@ -688,7 +688,7 @@ theorem writeLog_sim (hy : hyg sfx ids = true) (h : Sim H sfx ids lost s d) (i :
     have hsl : ¬ '/' ∈ (resolve sfx sLog i).file := by
       simpa [List.contains_eq_mem] using hslash
     have hr' : ¬ ({ s with logsDir := true } : Dir D).mode = .r := hr
-    have hres : writeCore H ({ s with logsDir := true } : Dir D) .logs i sLog data =
+    have hres : writeCore cfg H ({ s with logsDir := true } : Dir D) .logs i sLog data =
         ({ populate ({ s with logsDir := true } : Dir D) with
             logs := put (populate ({ s with logsDir := true } : Dir D)).logs (resolve sfx sLog i).file data },
          .done none) := by
